@@ -106,6 +106,17 @@ def drive_sampler(module, cls_name, raw_name, case):
             for op in seg["ops"]:
                 k, dims, via = op["k"], op["dims"], op["via"]
                 before = int(smp._sequence_index)
+                if via == "raw_bad":
+                    # a request the generator rejects (size <= 0), between two good ones: the cursor must not move
+                    rec = {"k": 0, "dims": dims, "before": before, "rows": np.zeros((0, dims)), "req": None, "rejected": True}
+                    try:
+                        getattr(smp, raw_name)(op["bad_k"], dims)
+                        rec["accepted"] = True
+                    except Exception as e:  # noqa: BLE001
+                        rec["raised"] = type(e).__name__
+                    rec["after"] = int(smp._sequence_index)
+                    so["calls"].append(rec)
+                    continue
                 if via == "raw":
                     rows = getattr(smp, raw_name)(k, dims)
                     so["calls"].append({"k": k, "dims": dims, "before": before, "after": int(smp._sequence_index),
@@ -245,6 +256,8 @@ def oracle_calls_common(so, fails, tag):
         if c.get("nocapture"):
             fails.append(f"no capture|{tag}: call {ci} did not reach digitize_data")
             continue
+        if c.get("accepted"):
+            fails.append(f"invalid arguments accepted|{tag}: call {ci} with a non-positive size returned a value")
         if c["req"] is not None and rows.shape != (c["req"], c["dims"]):
             fails.append(f"shape|{tag}: call {ci} returned shape {rows.shape}, requested {(c['req'], c['dims'])}")
         if c["before"] != cur:
@@ -396,8 +409,9 @@ def emit_hrun(case, obs):
     the answers must coincide."""
     lits = []
     for so in obs["segments"]:
-        ops = clist([f"({cz(c['k'])}, {cz(c['dims'])})" for c in so["calls"]])
-        ob = clist([f"({cz(c['after'])}, {rows_lit(c['rows'])})" for c in so["calls"]])
+        good = [c for c in so["calls"] if not c.get("rejected")]   # rejected requests are judged by the oracle (cursor unchanged)
+        ops = clist([f"({cz(c['k'])}, {cz(c['dims'])})" for c in good])
+        ob = clist([f"({cz(c['after'])}, {rows_lit(c['rows'])})" for c in good])
         twin = rows_lit(so["twin"]) if so["twin"] is not None else "[]"
         lits.append(f"({cz(so['s0'])}, {ops}, {ob}, {twin})")
     return lits
@@ -458,6 +472,11 @@ def gen_sampler_case(rng, kind, max_dims, max_k):
                         "jexp": [rng.randint(-2, 3) for _ in range(3)],
                         # a coarse grid makes sample() find repeats and redraw: extra internal sample_batch calls
                         "gridn": 64 if v < 9 else 4})
+        if kind == "hrun" and rng.below(4) == 0:
+            ops.insert(rng.randint(0, len(ops) - 1) if len(ops) > 1 else 0,
+                       {"k": 0, "bad_k": rng.choice([0, -1, -4]), "dims": ops[0]["dims"], "via": "raw_bad", "jexp": [0, 0, 0]})
+            if ops[-1]["via"] == "raw_bad":
+                ops.append({"k": rng.randint(1, max_k), "dims": ops[0]["dims"], "via": "raw", "jexp": [0, 0, 0], "gridn": 64})
         segs.append({"reseed": None if si == 0 else rng.below(2**31), "ops": ops})
     return {"kind": kind, "seed": rng.below(2**31), "segments": segs}
 
@@ -479,6 +498,16 @@ def gen_hdirect(rng, primes):
         start = 0
     elif t == 1:
         start = TOP - k
+    elif t in (2, 3, 4, 5) and any(2 <= b < TOP for b in bases):
+        # an exact power of one of the case's own bases (digit count changes there; log-based digit counts are off by one
+        # at 3^5, 3^10, 17^3, ...) placed at the first, a middle or the LAST row of the batch
+        b = rng.choice([x for x in bases if 2 <= x < TOP])
+        emax = 1
+        while b ** (emax + 1) < TOP:
+            emax += 1
+        e = emax if rng.below(3) == 0 else rng.randint(1, emax)
+        pos = k - 1 if rng.below(2) else rng.below(k)
+        start = b**e - 1 - pos
     elif t == 2:
         start = rng.choice([b**e - 1 - rng.below(2) for b in (2, 3, 5, 7, 173) for e in (1, 2, 3, 4) if b**e < TOP])
     else:
@@ -509,6 +538,12 @@ def generate(chk):
     cases.append({"kind": "hdirect", "k": 3, "bases": primes, "start": TOP - 3})
     for _ in range(n_d):
         cases.append(gen_hdirect(rng, primes))
+    # every exact power p^e (e >= 2) of the first primes below the top of the start range, as the LAST index of a batch of 2
+    for pi, pr in enumerate(primes[: 14 if quick else 40]):
+        e = 2
+        while pr**e < TOP:
+            cases.append({"kind": "hdirect", "k": 2, "bases": primes[: max(pi + 1, 3)], "start": pr**e - 2})
+            e += 1
     if not quick:
         for j, s in enumerate(range(rng.below(17), TOP - 2, 17)):
             cases.append({"kind": "hdirect", "k": 1 + (j % 8 == 0), "bases": primes, "start": s})
